@@ -78,4 +78,28 @@ CHECKS = {
         "level_text": 'Decides the structural clause: no path lets a non-admitted line reach engine state, and the admission predicate has the stated shape; the behavioural invariance under noise insertion follows given purity of extraction (C01). Exhaustive over all paths of the anchored functions.',
         "level_note": 'Trusted: MIR of the nightly front end; extraction purity (C01.pure); pure-callee list in rules_c06.py.',
     },
+    "C12": {
+        "modules": ["rules_c12"],
+        "explanation": "Path and type rules on the MIR of FileExecutor::execute and JoinedTableData::execute: the line loop iterates io::Lines<BufReader<File>> (type read from resolved generic arguments) with no iterator/reader adapter; the Err item of the iterator reaches an error return through Try::branch/FromResidual (or the loop continues), never a silent loop exit; on the Ok path every CFG path from the item back to the loop header passes through the single ExecutionEngine::execute call whose line argument is (by backward provenance) this iteration's item, moved unmodified; the reader list is built order-preservingly.",
+        "trusted": ["rustc nightly MIR + trait resolution", "dependencies behave as documented"],
+        "technique": 'static path (must-pass-through), provenance and resolved-type rules on MIR CFGs of the two input loops',
+        "level_text": "Decides the structural clauses (no adapter, no silent error exit, one execute per item on every path, order-preserving construction). The behaviour of BufRead::lines itself (CRLF, last line) is std's and trusted.",
+        "level_note": 'Trusted: std::io::Lines semantics; MIR of the nightly front end.',
+    },
+    "C19": {
+        "modules": ["rules_c19"],
+        "explanation": 'CFG rules on the MIR of FileExecutor::execute, FollowFileExecutor::execute and JoinedTableData::execute: the AtomicBool::load of the running flag (receiver provenance-checked) lies after the line is read, its running==true edge dominates ExecutionEngine::execute and OutputPrinter::print of that line, from its false edge no input-consuming call is reachable, the interrupt path constructs no Err and still passes the final aggregate result/print; constant extraction of the sampling interval in the join loader (<= 10); who-may-write enumeration of all atomic stores in lib and bin.',
+        "trusted": ["rustc nightly MIR + trait resolution", "dependencies behave as documented"],
+        "technique": 'static edge-dominance, reachability and who-may-write rules on MIR',
+        "level_text": 'Decides where the flag is sampled relative to reading/executing/printing on every path, and who writes it. Signal timing and the prefix relation are not decided.',
+        "level_note": 'Trusted: MIR of the nightly front end; SeqCst atomics behave as documented.',
+    },
+    "C07": {
+        "modules": ["rules_c07"],
+        "explanation": "CFG and who-may-read rules on the MIR of both executors and ExecutionEngine::{execute, update_limit}: from the reached_limit edge no input-consuming call is reachable (all loops are left); reached_limit is tested on every path from executing a line back to the loop header; the counter is fed from Vec::len of the emitted rows (no filtered count); execute_select is reached only through `limit is None` or `num_output_rows < limit` and the rows of one line are truncated before being counted; the batch aggregate table is cut in ExecutionEngine::execute, and no other function of the execution engines reads the statement's limit.",
+        "trusted": ["rustc nightly MIR + trait resolution", "dependencies behave as documented"],
+        "technique": 'static reachability, edge-dominance, callee-shape and who-may-read rules on MIR',
+        "level_text": "Decides the mechanism clauses (loop exit, pre-test, truncation, counting, single place of application). The two-run relation 'first n of the unlimited result' is not decided.",
+        "level_note": 'Trusted: MIR of the nightly front end.',
+    },
 }
